@@ -855,7 +855,27 @@ func (c *Conn) dispatch(fr *FrameHeader) bool {
 		return true
 	}
 
-	return c.state == connStateClosed && fr.Stream() == c.closeRef
+	// After a GOAWAY the server still finishes every stream up to the one it
+	// named (RFC 7540 6.8), so the connection is only done with when none of
+	// those is waiting any more: not when the first frame of that stream has
+	// been seen, which may be just the start of its response, and not while
+	// lower streams are still being answered.
+	return c.state == connStateClosed && !c.hasReqsUpTo(c.closeRef)
+}
+
+// hasReqsUpTo reports whether a request is still waiting on a stream with an
+// id of at most last.
+func (c *Conn) hasReqsUpTo(last uint32) bool {
+	c.reqLck.Lock()
+	defer c.reqLck.Unlock()
+
+	for id := range c.reqQueued {
+		if id <= last {
+			return true
+		}
+	}
+
+	return false
 }
 
 func (c *Conn) writeRequest(ctx *Ctx) error {
